@@ -225,8 +225,33 @@ pub fn corpus(tier: Tier) -> Vec<String> {
     ] {
         v.push(s.to_string());
     }
+    v.extend(keyword_prefix_corpus());
     v.sort();
     v.dedup();
+    v
+}
+
+/// keyword look-ahead cut short: every proper prefix of every keyword the tokenizers `eat`, at end of
+/// input, before a mismatching character and before '>' (parked look-ahead text must neither be
+/// lost nor reordered however the prefix itself is chunked)
+pub fn keyword_prefix_corpus() -> Vec<String> {
+    let mut v = vec![];
+    for (lead, kws) in [("<!", vec!["--", "[CDATA[", "DOCTYPE", "doctype", "DocType"]), ("<!DOCTYPE a ", vec!["PUBLIC", "SYSTEM", "public", "sYsTeM"])] {
+        for kw in kws {
+            let n = kw.chars().count();
+            for k in 1..=n {
+                let pre: String = kw.chars().take(k).collect();
+                for before in ["", "<a>x"] {
+                    for after in ["", "x", ">", "x>", " 'i'>y"] {
+                        if k == n && after.is_empty() && before.is_empty() {
+                            continue;
+                        }
+                        v.push(format!("{before}{lead}{pre}{after}"));
+                    }
+                }
+            }
+        }
+    }
     v
 }
 
